@@ -37,12 +37,28 @@ def expected_of(q, memo={}):
     return memo[q]
 
 
+def expected_op(op, memo={}):
+    """the outcome of one evaluating operation without any cache"""
+    k = repr(op)
+    if k not in memo:
+        from liquer.cache import NoCache
+        memo[k] = M.apply_op(NoCache(), op, "argument")
+    return memo[k]
+
+
+LAST_OPS = []
+
+
 def play(factory, q, history, mode):
-    """fresh cache, play history, evaluate q; returns observed outcome"""
+    """fresh cache, play history, evaluate q; returns observed outcome (the outcomes of the evaluating operations of the history
+    itself are left in LAST_OPS)"""
     c, cleanup = M.quiet(factory)
+    del LAST_OPS[:]
     try:
         for op in history:
-            M.apply_op(c, op, mode)
+            o = M.apply_op(c, op, mode)
+            if op[0].startswith("eval"):
+                LAST_OPS.append((op, o))
         return M.apply_op(c, ["eval", q], mode)
     finally:
         M.quiet(cleanup)
@@ -64,6 +80,15 @@ def check(col, kind, factory, q, history, mode):
     obs = play(factory, q, history, mode)
     exp = expected_of(q)
     col.evaluations += 1
+    # every evaluating operation of the history is itself an evaluation "with any cache, any earlier history": same outcome as without
+    # (an injected input value is left out: what it is allowed to leave behind is C05's subject and a recorded finding)
+    for i, (op, o) in enumerate(list(LAST_OPS)):
+        if op[0] in ("eval", "eval_extra") and not any(h[0] in ("eval_on", "eval_input", "eval_on_extra") for h in history[:i + 1]):
+            d_op = M.outcome_diff(expected_op(op), o, FIELDS)
+            if d_op:
+                col.add(CONTRACT, "Context.evaluate / %s" % kind, query=op[-1], cache=kind, cache_configured_as=mode, history=history[:history.index(op)],
+                        operation=op, differences=[dict(field=a, expected=b, observed=c) for a, b, c in d_op])
+                return False
     d = M.outcome_diff(exp, obs, FIELDS)
     if not d:
         return True
